@@ -325,6 +325,28 @@ func twccShapes(thorough bool) []twccShape {
 		seqs = append(seqs, []uint8{0, 0, 0, 0, 0, 0, 0, 0, 0, 0, 0, 0, 0, 0, 0, 0, 0, 0, 0, 0, 1}, []uint8{1, 2, 1, 2, 1, 2, 1, 2, 1, 2, 0, 0, 0, 1})
 	}
 	var out []twccShape
+	// feedback of 64 KiB and more (sizes that do not fit 16 bits; statuses up to the 16-bit count)
+	for _, bg := range []struct {
+		sym uint8
+		n   int
+	}{{StSmall, 40000}, {StSmall, 65535}, {StLarge, 32760}, {StLarge, 65535}} {
+		bg := bg
+		st := make([]uint8, bg.n)
+		for i := range st {
+			st[i] = bg.sym
+		}
+		var cs []ChunkSpec
+		for left := bg.n; left > 0; {
+			r := left
+			if r > 8191 {
+				r = 8191
+			}
+			cs = append(cs, ChunkSpec{Symbol: uint16(bg.sym), Run: uint16(r)})
+			left -= r
+		}
+		spec := TWCCSpec{Sender: 0x902f9e2e, Media: 0xa1b2c3d4, BaseSeq: 0x0003, RefTime: 0x8a9bac, FbCount: 0xc7, Statuses: st, Ticks: DefaultTicks(st), Chunks: cs}
+		out = append(out, twccShape{name: fmt.Sprintf("big:status=%dx%d,chunking=rl", bg.sym, bg.n), build: func() *rtcp.TransportLayerCC { return spec.Packet() }})
+	}
 	for si, st := range seqs {
 		type ck struct {
 			n string
